@@ -346,6 +346,10 @@ func runCase(t *rapid.T) {
 		var st []fr2
 		var foreign []*blockchain.Block
 		nf := rapid.IntRange(1, 2).Draw(t, "foreign")
+		// Variant (added after seeded change C05-p): the foreign blocks are removed WITH saveTemp as well - a second sync that fails after
+		// an earlier failed sync left parked blocks behind. The temp area is keyed by height, so the foreign block replaces the parked own
+		// block of its height; what the statement demands is that the block removed last "when requested" is retrievable.
+		foreignSaveTemp := rapid.IntRange(0, 2).Draw(t, "foreignSaveTemp") == 0
 		for i := 0; i < nf; i++ {
 			st = append(st, fr2{n.Dump(), snapshotLookups(n)})
 			sp := n.DrawSpec(t, opts, caseFlags)
@@ -364,12 +368,22 @@ func runCase(t *rapid.T) {
 		top := n.Tip().Header.Height
 		for i := nf - 1; i >= 0; i-- {
 			tip := n.Tip()
-			if err := n.Exec.VerifDeleteBlock(tip, false); err != nil {
+			if err := n.Exec.VerifDeleteBlock(tip, foreignSaveTemp); err != nil {
 				t.Fatalf("delete of foreign block %d failed: %v\nhistory:\n%s", tip.Header.Height, err, strings.Join(hist, "\n"))
 			}
-			hist = append(hist, fmt.Sprintf("DELETE foreign h=%d saveTemp=false", tip.Header.Height))
+			hist = append(hist, fmt.Sprintf("DELETE foreign h=%d saveTemp=%v", tip.Header.Height, foreignSaveTemp))
 			pr := eventsPruned(cfg.KeepEvents, top, f2)
-			before, after := filterT(st[i].dump, f2, pr, true), filterT(n.Dump(), f2, pr, true)
+			if foreignSaveTemp {
+				tb, err := n.Chain.DataAccess().GetTempBlocks()
+				found := false
+				for _, x := range tb {
+					found = found || (bytes.Equal(x.Header.ID, tip.Header.ID) && bytes.Equal(x.Encode(), tip.Encode()))
+				}
+				if err != nil || !found {
+					t.Fatalf("foreign block h=%d removed with saveTemp is not retrievable from the temp blocks (%d temp blocks, err=%v)\nhistory:\n%s", tip.Header.Height, len(tb), err, strings.Join(hist, "\n"))
+				}
+			}
+			before, after := filterT(st[i].dump, f2, pr, !foreignSaveTemp), filterT(n.Dump(), f2, pr, !foreignSaveTemp)
 			if d := diffDumps(before, after); d != "" {
 				t.Fatalf("state (parked temp blocks included) after apply+delete of a foreign block differs from the state before:\n%s\nhistory:\n%s", d, strings.Join(hist, "\n"))
 			}
@@ -378,7 +392,11 @@ func runCase(t *rapid.T) {
 			}
 		}
 		temps, err := n.Chain.DataAccess().GetTempBlocks()
-		if err != nil || len(temps) != deletable {
+		if foreignSaveTemp {
+			// the parked own blocks of the foreign heights were replaced; restore from the harness's copies (removeTemp clears each height)
+			temps = append([]*blockchain.Block{}, deleted...)
+			caseFlags["detour-foreign-parked-too"] = true
+		} else if err != nil || len(temps) != deletable {
 			t.Fatalf("parked blocks after the detour: got %d (%v) want %d\nhistory:\n%s", len(temps), err, deletable, strings.Join(hist, "\n"))
 		}
 		// restoreBlocks: the parked blocks go back in ascending height
@@ -391,7 +409,7 @@ func runCase(t *rapid.T) {
 		if !bytes.Equal(n.Tip().Header.ID, applied[k-1].Header.ID) {
 			t.Fatalf("tip after restore differs from the original tip\nhistory:\n%s", strings.Join(hist, "\n"))
 		}
-		if temps, _ := n.Chain.DataAccess().GetTempBlocks(); len(temps) != 0 {
+		if temps, _ := n.Chain.DataAccess().GetTempBlocks(); len(temps) != 0 && !(foreignSaveTemp && nf > deletable) {
 			t.Fatalf("temp blocks left after restore: %d\nhistory:\n%s", len(temps), strings.Join(hist, "\n"))
 		}
 		caseFlags["detour"] = true
